@@ -21,6 +21,9 @@ ASSUMPTIONS = [
     'a broadcast failure is injected by making broadcast_send raise at a chosen transition index; a non-tolerated '
     'exception propagates into transition_to as a failing hook (C03): the modelled run ends there',
     'user steps of the programs do not themselves call pause/play/kill',
+    'noted, not raised under C16: a stock kiwipy.LocalCommunicator delivers broadcasts by keyword, which trips the filter '
+    'shortcut of plumpy.communications.convert_to_comm (kwargs.get(\'sender\', args[1]) evaluates args[1] eagerly -> '
+    'IndexError); production (RMQ) delivers positionally, and so does the harness communicator',
 ]
 TRUSTED = ['communication model lean/PlumpyModel/Comms/Model.lean on top of the process-control model PM/Model.lean '
            '(hand-written; compared with the real communicator path op by op)',
@@ -188,7 +191,7 @@ def n_positions(prog):
         for e in r['events']:
             if e['kind'] == 'env':
                 break
-            if e['kind'] in ('cb', 'plumb'):
+            if e['kind'] in ('cb', 'other'):
                 n += 1
         _NPOS[prog] = n + 1
     return _NPOS[prog]
